@@ -2,6 +2,7 @@ package rules
 
 import (
 	"fmt"
+	"go/ast"
 	"go/constant"
 	"go/token"
 	"go/types"
@@ -393,6 +394,11 @@ func checkC11(c *Ctx) {
 		checkScanner(c, m.Fset, fn, spec)
 	}
 	checkC11Anchors(c)
+	// (n) a hole `{x}` is emitted as the Go identifier x: it denotes the Folang variable x only if every binder is
+	// emitted under its source spelling
+	if f := c.LoadFC("fc"); f != nil {
+		r.Import("C01.m", "C11.n", "a hole {x} of an interpolated literal is pasted into the Go text as the identifier x, so it denotes the Folang variable x only if binders keep their source spelling: the name stored in every Var / pattern node is the identifier the lexer read (the C01.m rule)", 6, func() { checkBinderNames(c, f) })
+	}
 }
 
 func checkScanner(c *Ctx, fset *token.FileSet, fn *ssa.Function, spec c11spec) {
@@ -631,6 +637,7 @@ func checkC11Anchors(c *Ctx) {
 	} else {
 		r.Undecided("C11.anchor", "parseAtom", "definition", "fc", "anchor function not found")
 	}
+	checkStringValWriters(c, f)
 	// the text the scanners read is the file's content: nothing rewrites the source between sys.ReadFile and the tokenizer
 	forwarders := map[string]bool{"psSetNewSrc": true, "newTkz": true, "initParse": true}
 	nsrc := 0
@@ -684,4 +691,84 @@ func checkC11Anchors(c *Ctx) {
 	}
 	checkTermSpecsOpt(c, "C11.anchor", "pkg/frt", sp, false)
 	checkToSRule(c, "C11.anchor")
+}
+
+// who may write Token.stringVal (C11.anchor): the text of a literal token is what its scanner wrote into it — no
+// function between the scanner and the parser rewrites it.  Writers are read off the typed syntax (assignments to
+// the field, composite literals that set it); the frozen set is the five constructors/scanners of the reviewed tree.
+var stringValWriters = map[string]string{
+	"newOneCharToken":           "one-character tokens carry their character",
+	"newStLikeToken":            "keyword-like tokens carry their lexeme",
+	"scanIdentifierToken":       "identifier text (a slice of the source)",
+	"scanStringLiteralToken":    "the scanner decided by C11.a-c",
+	"scanRawStringLiteralToken": "the scanner decided by C11.a-c",
+	"newToken":                  "positional composite literal with an empty text",
+}
+
+func checkStringValWriters(c *Ctx, f *FC) {
+	r := c.R
+	pkg := f.M.Main()
+	info := pkg.TypesInfo
+	writers := map[string]bool{}
+	isStringVal := func(e ast.Expr) bool {
+		se, ok := e.(*ast.SelectorExpr)
+		if !ok {
+			return false
+		}
+		v, ok := info.Uses[se.Sel].(*types.Var)
+		return ok && v.IsField() && v.Name() == "stringVal"
+	}
+	for _, file := range pkg.Syntax {
+		for _, d := range file.Decls {
+			fd, ok := d.(*ast.FuncDecl)
+			if !ok || fd.Body == nil {
+				continue
+			}
+			name := funcLabel(fd)
+			ast.Inspect(fd.Body, func(x ast.Node) bool {
+				switch y := x.(type) {
+				case *ast.AssignStmt:
+					for _, l := range y.Lhs {
+						if isStringVal(l) {
+							writers[name] = true
+						}
+					}
+				case *ast.CompositeLit:
+					tv, ok := info.Types[y]
+					if !ok {
+						return true
+					}
+					n, ok := tv.Type.(*types.Named)
+					if !ok || n.Obj().Name() != "Token" || n.Obj().Pkg() != pkg.Types {
+						return true
+					}
+					st, _ := n.Underlying().(*types.Struct)
+					for i, el := range y.Elts {
+						if kv, ok := el.(*ast.KeyValueExpr); ok {
+							if id, ok := kv.Key.(*ast.Ident); ok && id.Name == "stringVal" {
+								writers[name] = true
+							}
+						} else if st != nil && i < st.NumFields() && st.Field(i).Name() == "stringVal" {
+							writers[name] = true
+						}
+					}
+				case *ast.UnaryExpr:
+					if y.Op == token.AND && isStringVal(y.X) {
+						writers[name] = true // address taken: anybody may write through it
+					}
+				}
+				return true
+			})
+		}
+	}
+	var extra []string
+	for w := range writers {
+		if _, ok := stringValWriters[w]; !ok {
+			extra = append(extra, w)
+		}
+	}
+	sort.Strings(extra)
+	r.Check(len(extra) == 0 && len(writers) >= 4, "C11.anchor", "Token.stringVal", "who-may-write", "fc/wrapper.go",
+		"the text of a token is written only by its constructor or scanner ("+strings.Join(sortedKeysB(writers), ", ")+")",
+		"Token.stringVal is also written by "+strings.Join(extra, ", ")+": the text of a literal is rewritten after its scanner produced it, outside the byte-class discipline C11.a-c decide")
 }
